@@ -83,7 +83,7 @@ def direct_fn(case, wit):
 def run(tier, seed):
     from ..families import cross_family
     res = run_r("C05", tier, seed, scenarios(tier), [acc_C05], 2 if tier == "quick" else 3, on_exc, WIT, RULE)
-    run_r("C05", tier, seed, cross_family(tier, observer=make_holdings_observer()), [acc_C05], 1 if tier == "quick" else 2, on_exc, [], RULE, res=res, label="cross_family", split=0)
+    run_r("C05", tier, seed, cross_family(tier, observer=make_holdings_observer()), [acc_C05], 1, on_exc, [], RULE, res=res, label="cross_family", split=0)
     from ..enum_f import run_grid
     ev0, dn0 = res.coverage["evaluations"], res.coverage["distinct_nontrivial"]
     run_grid(res, "direct_settlement", list(direct_cases()), direct_fn, seed)
